@@ -14,8 +14,10 @@ AlphaLines == <<"a", " ", "\n", "\"", "{">>
 AlphaInd   == <<"a", " ", "\n", "#">>
 \* interpolated expressions: spacing and line breaks inside the braces of a string
 AlphaInterp == <<"a", " ", "\"", "{", "}">>
+\* doc strings: the triple quote as one unit, so that opening and closing quotes at different columns and lines fit into few parts
+AlphaDoc == <<"\"\"\"", "a", " ", "\n">>
 CONSTANT AlphaName
-Alpha == CASE AlphaName = "full" -> AlphaFull [] AlphaName = "lines" -> AlphaLines [] AlphaName = "indent" -> AlphaInd [] AlphaName = "interp" -> AlphaInterp
+Alpha == CASE AlphaName = "full" -> AlphaFull [] AlphaName = "lines" -> AlphaLines [] AlphaName = "indent" -> AlphaInd [] AlphaName = "interp" -> AlphaInterp [] AlphaName = "doc" -> AlphaDoc
 
 \* the token vocabulary: every keyword and operator spelling of the language plus literals of each class
 Vocab == << "from", "type", "class", "pure", "isa", "as", "import", "forward", ".", ",", ":", "vararg", "\\",
